@@ -8,6 +8,8 @@ package main
 //                   calls and the argument expression (p[:n]), plus the EOF separator
 //   gen_separators  the literal every DumpDefault call in transfer.go / http2 / http3 passes
 //   gen_dumpto      the conditions of the if statements of Dumper.DumpTo, in order
+//   gen_bufio_asserts  the expression every `.(*bufio.Writer)` assertion of writeRequest / writeBody
+//                   is made on (the raw writer rw, never the dump-wrapped w)
 // Proofs/DumpSyncProofs.v proves that the model's resolve / enabled / hook constants are what
 // these tables say, so an edit of the routing or of a wrapper breaks a proof.
 
@@ -202,6 +204,29 @@ func syncDumpTables(repo string) (string, string, error) {
 		})
 	}
 
+	// ---- *bufio.Writer assertions that decide the flushes (writeRequest, writeBody) ----
+	var asserts []string
+	for _, site := range [][2]string{{"transport.go", "writeRequest"}, {"transfer.go", "writeBody"}} {
+		f, err = parse(site[0])
+		if err != nil {
+			return "", "", err
+		}
+		for _, d := range f.Decls {
+			fd, ok := d.(*ast.FuncDecl)
+			if !ok || fd.Name.Name != site[1] || fd.Body == nil {
+				continue
+			}
+			ast.Inspect(fd.Body, func(n ast.Node) bool {
+				ta, ok := n.(*ast.TypeAssertExpr)
+				if !ok || ta.Type == nil || exprString(fset, ta.Type) != "*bufio.Writer" {
+					return true
+				}
+				asserts = append(asserts, fmt.Sprintf("  (%s, %s)", coqStr(site[1]), coqStr(exprString(fset, ta.X))))
+				return true
+			})
+		}
+	}
+
 	var sb strings.Builder
 	sb.WriteString("(* GENERATED by harness/c13 gosync from /repo/dump.go, internal/dump/dump.go, transfer.go,\n   internal/http2/transport.go, internal/http3/client.go - do not edit *)\n")
 	sb.WriteString("From ReqV Require Import Lib.Bytes.\n")
@@ -213,5 +238,6 @@ func syncDumpTables(repo string) (string, string, error) {
 	list("gen_wrappers", "(bytes * bytes * bytes)", wrappers)
 	list("gen_separators", "(bytes * bytes)", seps)
 	list("gen_dumpto", "bytes", conds)
+	list("gen_bufio_asserts", "(bytes * bytes)", asserts)
 	return "DumpTables.v", sb.String(), nil
 }
